@@ -150,6 +150,9 @@ def _with_marker(rng, stmts, placement):
     lookup).  placement: none / top / middle / bottom / alone / miscased / two."""
     flat = lambda gs: [l for g in gs for l in g]  # noqa: E731
     deco = lambda: [_comment(rng)] if rng.random() < 0.25 else []  # noqa: E731
+    if placement == "empty":
+        # a block the user wrote with nothing in it (not even a comment): still the user's
+        return []
     if placement == "alone":
         return deco() + [MARKER] + deco()
     if placement == "none":
@@ -176,6 +179,8 @@ def _with_marker(rng, stmts, placement):
 
 
 def _placement(rng):
+    if rng.random() < 0.06:
+        return "empty"
     return rng.choice(["none", "none", "top", "middle", "middle", "bottom", "alone", "miscased",
                        "miscased", "two"] if rng.random() < 0.9 else ["two"])
 
@@ -405,7 +410,7 @@ def gen_fea(rng, facts, want=None, collide=None, ext_split=False, mfs=False):
         refs = rng.sample(plain_tags, rng.randint(1, min(2, len(plain_tags))))
         blocks.insert(0, ("gsub", _block("feature", "aalt", ["feature %s;" % r for r in refs])))
     for t, placement in plan.items():
-        n_blocks = 2 if (rng.random() < 0.2 and placement != "alone") else 1
+        n_blocks = 2 if (rng.random() < 0.2 and placement not in ("alone", "empty")) else 1
         for bi in range(n_blocks):
             uid[0] += 1
             if t == "kern":
